@@ -325,6 +325,24 @@ def step (s : St) (j : Json) : R (St × Json) := do
           ("label", optS e.label), ("arrowhead", optS e.arrowhead), ("style", optS e.style), ("color", optS e.color)])).toArray),
       ("clusters", Json.arr (st.clusters.map (fun c => Json.mkObj [("name", Json.str c.name), ("label", Json.str c.label),
           ("url", Json.str c.url)])).toArray)])
+  | "dest_path" =>
+    let loc ← (← j.getObjVal? "s").getStr?
+    return (s, Json.mkObj [("path", match Prov.FileIO.destPath loc with | some p => Json.str p | none => Json.null)])
+  | "write_path" =>
+    let n ← (← j.getObjVal? "n").getNat?
+    let fault : Option Nat ← match field? j "fault" with
+      | some f => do pure (some (← f.getNat?))
+      | none => pure none
+    let existed ← (← j.getObjVal? "dest_exists").getBool?
+    let fs0 : Prov.FileIO.FS := (if existed then [("DEST", "OLD")] else []) ++ [("OTHER", "X")]
+    let chunks := List.replicate n "c"
+    let (fs1, ok) := Prov.FileIO.writePath fs0 "TMP" "DEST" chunks fault
+    let dest := match Prov.FileIO.fsGet fs1 "DEST" with
+      | none => "absent"
+      | some c => if c == "OLD" then "old" else if c == String.join chunks then "new" else "other"
+    return (s, Json.mkObj [("ok", Json.bool ok), ("dest", Json.str dest),
+      ("tmp_left", Json.bool (Prov.FileIO.fsGet fs1 "TMP").isSome),
+      ("other_intact", Json.bool (Prov.FileIO.fsGet fs1 "OTHER" == some "X"))])
   | "enc_xml" =>
     let c ← s.cont j "c"
     let ft ← (← j.getObjVal? "ft").getBool?
